@@ -3,7 +3,7 @@
 Interface: see props/c13.py.  One case = one wheel: {"kind":"wheel","interval":ns,"slots":N,"calls":[...]};
 observation = per call {err, fired (callback order), drained (sorted)}.
 """
-from vlib import cZ, cnat, cbool, clist
+from vlib import cZ, cnat, cbool, clist, run_driver
 
 ID = "C10"
 GO_PKG = "./lib/collection"
@@ -22,6 +22,10 @@ GEN_SPEC = {"items": [
     {"kind": "calls", "file": _F, "func": "TimingWheel.RemoveTimer", "as": "RemoveTimer_calls"},
     {"kind": "calls", "file": _F, "func": "TimingWheel.Drain", "as": "Drain_calls"},
     {"kind": "const", "file": _F, "name": "drainWorkers"},
+    {"kind": "calls", "file": "lib/threading/taskrunner.go", "func": "TaskRunner.Schedule", "as": "schedule_calls"},
+    {"kind": "calls", "file": "lib/threading/routines.go", "func": "RunSafe", "as": "runsafe_calls"},
+    {"kind": "calls", "file": "lib/threading/routines.go", "func": "GoSafe", "as": "gosafe_calls"},
+    {"kind": "calls", "file": "lib/rescue/recover.go", "func": "Recover", "as": "recover_calls"},
     {"kind": "const", "file": "lib/collection/safemap.go", "name": "maxDeletion"},
     {"kind": "const", "file": "lib/collection/safemap.go", "name": "copyThreshold"},
 ]}
@@ -38,7 +42,8 @@ RULE = ("one wheel per case: slot count N in {1..7,10,16,60,300}, interval in {1
         "delay <= 0, delay < interval, calls after Drain, interval/slots <= 0) and a gated stream (slow callbacks: the "
         "execute callback of one task of a 3-5 task batch is held on a driver gate while later ticks fire further batches "
         "and further calls arrive; the drain function is held with 5-16 pending tasks, i.e. below and above drainWorkers, "
-        "while ticks arrive); non-trivial = at least one callback "
+        "while ticks arrive) and a panic stream (the drain function panics on >= 8 of 12-50 pending tasks; execute callbacks "
+        "panic on >= 9 firings of one tick and on further firings across ticks, followed by later timers); non-trivial = at least one callback "
         "observed and at least one Move or re-Set of a pending key; distinct = distinct canonical case JSON")
 TRUSTED = ["the wheel model uses a plain association list for the timers index; that SafeMap refines a plain map is proved "
            "(c10_safemap_refines_map) and corresponded on its own histories (kind safemap)",
@@ -55,6 +60,7 @@ ASSUMPTIONS = ["operations are serialised through the run loop (the driver issue
 
 KEYS = ["k0", "k1", "k2", "k3", "k4", "k5"]
 MANY = ["k%d" % i for i in range(16)]
+LOTS = ["k%d" % i for i in range(64)]
 GATES = ("hold", "release", "holddrain", "releasedrain")
 
 
@@ -190,6 +196,57 @@ def _gated_exec(rng):
     return {"kind": "wheel", "interval": iv, "slots": n, "calls": calls}
 
 
+def _panic_drain(rng):
+    """Drain with 12-50 pending tasks (more than drainWorkers) and a drain function that panics on at least 8 of them:
+    every pending task is still handed over once and the wheel keeps consuming ticks"""
+    n = rng.choice([1, 3, 5, 10])
+    iv = rng.choice([1, 1000])
+    nk = rng.choice([12, 20, 20, 50])
+    keys = LOTS[:nk]
+    calls = [{"op": "tick"} for _ in range(rng.randrange(n))]
+    for i, k in enumerate(keys):
+        calls.append({"op": "set", "key": k, "val": i, "delay": rng.randint(1, 3 * n) * iv})
+    calls.extend({"op": "tick"} for _ in range(rng.randint(0, 2)))
+    pd = ["*"] if rng.random() < 0.4 else rng.sample(keys, rng.randint(8, nk))
+    calls.append({"op": "drain"})
+    calls.extend({"op": "tick"} for _ in range(rng.randint(1, n + 3)))
+    if rng.random() < 0.5:
+        calls.append({"op": "stop"})
+        calls.append({"op": "set", "key": "k0", "val": 1, "delay": iv})
+    return {"kind": "wheel", "interval": iv, "slots": n, "panic_drain": pd, "calls": calls}
+
+
+def _panic_exec(rng):
+    """execute callbacks that panic on more than 8 firings, within one tick and across ticks; the timers due later
+    still fire at their ticks"""
+    n = rng.choice([1, 2, 3, 5, 10])
+    iv = rng.choice([1, 1000])
+    s = rng.randint(1, n + 2)
+    keys = list(LOTS[:rng.choice([20, 30, 40])])
+    rng.shuffle(keys)
+    calls = [{"op": "tick"} for _ in range(rng.randrange(n))]
+    pe = []
+    if rng.random() < 0.6:      # one big batch, >= 9 of its callbacks panic
+        nb = rng.randint(10, 16)
+        batch, keys = keys[:nb], keys[nb:]
+        for i, k in enumerate(batch):
+            calls.append({"op": "set", "key": k, "val": i, "delay": s * iv})
+        pe += rng.sample(batch, rng.randint(9, nb))
+    horizon = s
+    for i, k in enumerate(keys):    # the rest: spread over the following ticks, a few panicking at every tick
+        d = s + 1 + i % (n + 4)
+        horizon = max(horizon, d)
+        calls.append({"op": "set", "key": k, "val": 50 + i, "delay": d * iv})
+        if rng.random() < 0.6:
+            pe.append(k)
+    if rng.random() < 0.3:
+        pe = ["*"]
+    late = "k63"
+    calls.append({"op": "set", "key": late, "val": 99, "delay": (horizon + 2) * iv})
+    calls.extend({"op": "tick"} for _ in range(horizon + 3))
+    return {"kind": "wheel", "interval": iv, "slots": n, "panic_exec": pe, "calls": calls}
+
+
 def _gated_drain(rng):
     """Drain with more pending tasks than drainWorkers while the drain function is held; ticks arrive meanwhile"""
     n = rng.choice([1, 2, 3, 4, 5, 10])
@@ -267,9 +324,13 @@ def generate(rng, tier, n):
         cases.append({"kind": "wheel", "interval": -5, "slots": -1, "calls": []})
     while len(cases) < n:
         r = rng.random()
-        if r < 0.12:
+        if r < 0.04:
+            cases.append(_panic_drain(rng))
+        elif r < 0.08:
+            cases.append(_panic_exec(rng))
+        elif r < 0.16:
             cases.append(_gated_exec(rng))
-        elif r < 0.2:
+        elif r < 0.22:
             cases.append(_gated_drain(rng))
         elif r < 0.42:
             cases.append(_directed(rng))
@@ -278,6 +339,42 @@ def generate(rng, tier, n):
         else:
             cases.append(_rand_case(rng, True))
     return cases
+
+
+def _risky(c):
+    return bool(c.get("panic_exec") or c.get("panic_drain"))
+
+
+def drive(cases, tier):
+    """One test process for everything; if it dies (an unrecovered panic in a callback goroutine kills the whole
+    process and leaves no observations) the cases with panicking callbacks are re-run one per process so that the
+    culprits are reported as observations ({"crashed": true}) and every other case still yields its own."""
+    obs, log = run_driver(GO_PKG, cases, name="C10" + tier[0], timeout=DRIVER_TIMEOUT)
+    if obs is not None:
+        return obs, log
+    risky = [i for i, c in enumerate(cases) if _risky(c)]
+    safe = [i for i, c in enumerate(cases) if not _risky(c)]
+    if not risky:
+        return None, log
+    out = [None] * len(cases)
+    o, l2 = run_driver(GO_PKG, [cases[i] for i in safe], name="C10" + tier[0] + "s", timeout=DRIVER_TIMEOUT)
+    if o is None:
+        return None, log + l2
+    for i, x in zip(safe, o):
+        out[i] = x
+    crashed = 0
+    for i in risky:
+        if crashed >= 4:        # enough culprits: do not pay a process per remaining case
+            out[i] = {"skipped": True}
+            continue
+        o, l2 = run_driver(GO_PKG, [cases[i]], name="C10" + tier[0] + "x", timeout=120)
+        if o is None:
+            crashed += 1
+            tail = [ln for ln in l2.splitlines() if "panic" in ln or "goroutine" in ln][:4]
+            out[i] = {"crashed": True, "new_ok": True, "obs": [], "hung": "test process died: " + " | ".join(tail)[:300]}
+        else:
+            out[i] = o[0]
+    return out, log
 
 
 def search(rng, problems):
@@ -297,7 +394,7 @@ def search(rng, problems):
                     calls.extend({"op": "tick"} for _ in range(3 * n + 2))
                     out.append({"kind": "wheel", "interval": 1000, "slots": n, "calls": calls})
     rng.shuffle(out)
-    return out[:300] + [_directed(rng) for _ in range(200)] + [_gated_exec(rng) for _ in range(60)] + [_gated_drain(rng) for _ in range(60)]
+    return out[:300] + [_panic_drain(rng) for _ in range(12)] + [_panic_exec(rng) for _ in range(12)] + [_directed(rng) for _ in range(200)] + [_gated_exec(rng) for _ in range(60)] + [_gated_drain(rng) for _ in range(60)]
 
 
 def _key(k):
@@ -403,6 +500,12 @@ def bucket(case, obs):
         out.append("obs:callback-after-last-call")
     errs = {o["err"] for o in obs.get("obs", [])}
     out += ["err:%d" % e for e in sorted(errs) if e]
+    if case.get("panic_drain"):
+        out.append("panic:drain-function(%s pending)" % ("<=20" if sum(1 for c in case["calls"] if c["op"] == "set") <= 20 else ">20"))
+    if case.get("panic_exec"):
+        out.append("panic:execute-callbacks")
+    if obs.get("crashed"):
+        out.append("obs:PROCESS-DIED")
     if obs.get("hung"):
         out.append("obs:HUNG")
     if any(o["drained"] for o in obs.get("obs", [])):
@@ -416,6 +519,10 @@ def explain(case, obs):
     if case.get("kind") == "safemap":
         return ("a Get (or Size) of the real SafeMap differs from the plain association map after the same Put/Del history "
                 "(c10_safemap_refines_map): an entry was lost or resurrected by a generation switch / compaction")
+    if obs.get("crashed") or obs.get("hung"):
+        return ("the wheel did not survive this history: " + str(obs.get("hung")) + " -- a callback that panics (or is slow) must "
+                "not stop the run loop or the process: every pending task is still handed over / fired once and later ticks "
+                "are consumed (c10_refines_timer_spec, c10_drain_once_then_silent, c10_runner_no_leak)")
     return ("observed callbacks contradict C10.Exec.spec_ok: replaying the calls on the abstract timer "
             "(key -> (value, due tick = T + floor(delay/interval))) some tick fired a different multiset of (key,value) "
             "than the tasks due at it (c10_refines_timer_spec / c10_exactly_once), a removed or drained task fired, "
